@@ -14,5 +14,8 @@ def run(ded, repo, tier):
     driver.run_parallel(ded, specs)
     ded.assume('keys/values are opaque with total, deterministic, side-effect-free ==/hash; the private sentinel _MISSING is never a key or value')
     ded.trust('builtin dict/list models: map + ghost size, (array, length); len(d) == 0 iff d has no key')
-    ded.trust('not under contract (bounded only): __init__/update/update_extend/addlist/setdefault/pop/poplast/popitem/copy/'
-              'pickling, the ordered readers (iteritems/iterkeys/itervalues/__reversed__, == and derived views), QueryParamDict')
+    ded.trust('not under contract (bounded only): __init__/update/update_extend/addlist/copy/pickling, == / !=, itervalues, '
+              'the multi=False readers, __reversed__ and the derived views (todict, counts, inverted, sorted...), QueryParamDict')
+    ded.assume('completeness of the ordered readers is stated as: the walk starts at the oldest and ends at the newest cell, '
+               'follows stamp successors, and no live cell lies strictly between two consecutive items; that every pair is '
+               'therefore yielded exactly once is a one-line discrete argument that is not mechanised')
